@@ -35,6 +35,9 @@ pub struct GenerationCache {
     /// Hash of all discovered events (empty when the project emits none)
     #[serde(default)]
     events_hash: String,
+    /// Names of the files written by the generation this record vouches for
+    #[serde(default)]
+    files: Vec<String>,
 }
 
 impl GenerationCache {
@@ -58,7 +61,20 @@ impl GenerationCache {
             config_hash,
             combined_hash,
             events_hash: String::new(),
+            files: Vec::new(),
         })
+    }
+
+    /// Record the files written by this generation; a later cache hit requires them to exist
+    pub fn with_files(mut self, files: &[String]) -> Self {
+        self.files = files.to_vec();
+        self
+    }
+
+    /// Forget the previous generation. Called before the output files are rewritten, so that
+    /// an interrupted or failed generation is never mistaken for an up-to-date one
+    pub fn invalidate<P: AsRef<Path>>(output_dir: P) {
+        let _ = fs::remove_file(Self::cache_path(output_dir));
     }
 
     /// Fold the discovered events into the cache: event names and payload types are
@@ -124,6 +140,16 @@ impl GenerationCache {
 
         // Check version compatibility
         if previous_cache.version != Self::CURRENT_VERSION {
+            return Ok(true);
+        }
+
+        // The record vouches for the files of that generation: if one was removed since,
+        // the output is not up to date whatever the hashes say
+        if previous_cache
+            .files
+            .iter()
+            .any(|file| !output_dir.as_ref().join(file).is_file())
+        {
             return Ok(true);
         }
 
